@@ -5,7 +5,10 @@
     ising_hamiltonian.py, heisenberg_hamiltonian.py, fermi_hubbard_hamiltonian.py and
     molecular_hamiltonian.py: the whole loop nests of as_pauli_operator, the coefficient-tensor
     constructions of as_field_operator, the symmetry checks of MolecularHamiltonian.__init__ and
-    the is_hermitian bodies.  The theorems below are stated about those generated terms, for
+    the is_hermitian bodies; the translator also refuses (fail-closed) constructors of the three
+    lattice models that lack the isinstance validations making the couplings real or that store
+    anything but the arguments, and as_matrix bodies that are not "matrix of the generated
+    operator".  The theorems below are stated about those generated terms, for
     every number of sites, every adjacency relation [adj : nat -> nat -> bool] and every
     commutative *-ring K with i*i = -1 (couplings "real" = fixed by conjugation).
     PauliString / PauliOperator semantics come from the C09 model, FieldOperator.as_matrix is the
@@ -253,6 +256,20 @@ Theorem C15_molecular_constructor_rule :
     end.
 Proof. intros K L keq n nsites c creal tk vi herm varch Hk. rewrite gen_mol_ctor_is_model. apply mol_ctor_spec. exact Hk. Qed.
 Print Assumptions C15_molecular_constructor_rule.
+
+(** an accepted constructor call stores exactly what it was given: together with
+    C15_molecular_matrix this makes the matrix the stated sum over the INPUT c, tkin, vint
+    (C15_molecular_matrix alone speaks about the stored fields m_c, m_t, m_v) *)
+Theorem C15_molecular_constructor_stores_inputs :
+  forall (K : Scalar) keq n nsites (c : K) creal tk vi herm varch H,
+    gen_mol_ctor keq n nsites c creal tk vi herm varch = Some H ->
+    m_c H = c /\ m_t H = tk /\ m_v H = vi /\ m_herm H = herm /\ m_varch H = varch.
+Proof.
+  intros K keq n nsites c creal tk vi herm varch H. rewrite gen_mol_ctor_is_model. unfold mol_ctor.
+  repeat match goal with |- context [if ?b then _ else _] => destruct b end; try discriminate.
+  intros E; injection E as <-. cbn. repeat split; reflexivity.
+Qed.
+Print Assumptions C15_molecular_constructor_stores_inputs.
 
 Theorem C15_molecular_hermitian_flag_sound :
   forall (K : Scalar) (L : ScalarLaws K) keq n nsites (half c : K) creal tk vi herm varch H,
